@@ -82,6 +82,8 @@ func c15replay(c *Ctx, lines []string) {
 		case "utpdec":
 			v, _ := strconv.Atoi(f[1])
 			c15utpdec(c, uint8(v), unhx(f[2]))
+		case "hold":
+			c15hold(c, unhxl(f[1]), unhxl(f[2]))
 		case "enc", "rt", "trunc":
 			items := unhxl(f[1])
 			enc := portalwire.VerifEncodeContents(items)
@@ -176,6 +178,15 @@ func runC15(c *Ctx) {
 			c.Count(fmt.Sprintf("enc_items_%d", bucket(len(items))))
 			enc := portalwire.VerifEncodeContents(items)
 			c.Emit("enc %s | %s", hxl(items), hx(enc))
+			if len(enc) < 20000 && len(items) > 0 && r.Intn(3) == 0 {
+				// a joined payload is a value: later joins (of payloads that fit the same scratch space) must not change it
+				other := make([][]byte, len(items))
+				for j := range other {
+					other[j] = r.Bytes(len(items[j]))
+				}
+				c.Count("hold")
+				c15hold(c, items, other)
+			}
 			if len(enc) < 70000 {
 				c15hoc(c, len(items), enc)
 				if len(items) > 0 {
@@ -261,6 +272,16 @@ func runC15(c *Ctx) {
 			}
 		}
 	}
+}
+
+// c15hold joins a, keeps the payload, joins b a few times (as concurrent offers do while the first payload waits for its
+// uTP connection) and reports the first payload as it is then.
+func c15hold(c *Ctx, a, b [][]byte) {
+	pa := portalwire.VerifEncodeContents(a)
+	for t := 0; t < 4; t++ {
+		_ = portalwire.VerifEncodeContents(b)
+	}
+	c.Emit("hold %s %s | %s", hxl(a), hxl(b), hx(pa))
 }
 
 func c15dec1(c *Ctx, b []byte) {
